@@ -4,7 +4,8 @@ package c04
 // every frame into ONE reused buffer and hands sub-slices of it to the
 // handlers.  Here the real loop runs on the in-memory socket.  Histories are
 // restricted to frames that are harmless through the direct entry points
-// (discovery from several MACs, the owner's own orderly dialogue, echo / IP /
+// (discovery from several MACs - including PADI / PADR whose Host-Uniq, cookie or
+// whole tag area is another peer's - the owner's own orderly dialogue, echo / IP /
 // malformed PAP from other MACs), so what this test adds is exactly the
 // loop's own contribution to clause (2).
 
@@ -49,9 +50,14 @@ func genLoopCase(rt *rapid.T) caseSpec {
 			st = step{Kind: rapid.SampledFrom([]frameKind{kLCPEcho, kIP, kPAPMalformed, kCHAPResp}).Draw(rt, "kind"),
 				Src: (s.owner + rapid.IntRange(1, 3).Draw(rt, "other")) % 4, SID: s.id}
 			fill(rt, &st)
-		default:
+		case w < 9:
 			st = step{Kind: rapid.SampledFrom([]frameKind{kPADI, kPADRNoCookie}).Draw(rt, "kind"), Src: rapid.IntRange(0, 3).Draw(rt, "src")}
 			fill(rt, &st)
+		default: // discovery-stage frames that collide with a live session through their tags, retransmissions, floods
+			st = p.discoveryStep(rt)
+			if st.Kind == kPADT {
+				st.Kind = kPADI
+			}
 		}
 		if sig := p.predictSig(st); sig != "" {
 			continue
